@@ -289,6 +289,13 @@ func runC19(args []string) {
 					class = "valid:near-language/"
 				}
 				cells = append(cells, &c19Cell{tool: "bebopfmt", input: class + base.name + "+" + p.name, fault: "none", setup: format(t)})
+				// the compiler on the same text: a rejected text must fail and leave the -o file alone; an
+				// accepted one either compiles or fails cleanly (Generate may still refuse it)
+				cclass := "syntax-error:near-language/"
+				if strings.HasPrefix(class, "valid") {
+					cclass = "near-language-accepted:"
+				}
+				cells = append(cells, &c19Cell{tool: "bebopc-go", input: cclass + base.name + "+" + p.name, fault: "none", setup: compile("near-language", t)})
 			}
 		}
 	}
